@@ -331,6 +331,7 @@ func c10FixtureJournal(id, dir string, r *rand.Rand, commits []int, maxBody int)
 		return nil, err
 	}
 	seen := map[hash.Hash]bool{}
+	seen16 := map[[16]byte]bool{}
 	for ci, n := range commits {
 		fam := 0
 		if n < 100 {
@@ -338,8 +339,13 @@ func c10FixtureJournal(id, dir string, r *rand.Rand, commits []int, maxBody int)
 		}
 		var batch []c10Chunk
 		for _, c := range c10GenChunks(r, n, fam, maxBody) {
-			if !seen[c.h] {
+			// the journal index keys chunks by their first 16 address bytes ("assumed to be globally unique"): forged family
+			// members that differ only in the last 4 bytes are not inputs the journal can meet
+			var k [16]byte
+			copy(k[:], c.h[:16])
+			if !seen[c.h] && !seen16[k] {
 				seen[c.h] = true
+				seen16[k] = true
 				batch = append(batch, c)
 			}
 		}
